@@ -10,9 +10,9 @@ C03 driver.  Ops (one per line):
       vars = `-` or `,`-separated  <varid>:<ty>                ty = s|u followed by the rank digit 1 char … 5 long long
       lits = `-` or `,`-separated  <hexspelling>:<ty>:<value>   (what the C compiler sees; used by `annOK` only)
       tree = the serialisation printed by harness/c03.cpp
-    → <r12> <r21> # <findings> # <annOK per tree, T/F>
-  eval <vars> <lits> <env> | <tree>          env = `-` or `,`-separated <varid>=<value>
-    → v:<value> | ub
+    → <r12> <r21> # <findings> # per tree four letters T/F: annOK eqNeSafe cmpSafe vtOK(all nodes)
+  eval <vars> <lits> <env>;<env>;… | <tree>          env = `-` or `,`-separated <varid>=<value>
+    → `,`-separated  v:<value> | ub
 -/
 namespace Driver.C03
 
@@ -133,6 +133,13 @@ def mkSem (vars : List (Nat × Ty)) (lits : List (List Char × Ty × Int)) : Sem
 
 def tf (b : Bool) : String := if b then "T" else "F"
 
+/-- `vtOK` on every node -/
+def vtAll (S : Sem) : Expr → Bool
+  | .lit a sp => vtOK S (.lit a sp)
+  | .var a x => vtOK S (.var a x)
+  | .un a op e => vtOK S (.un a op e) && vtAll S e
+  | .bin a op l r => vtOK S (.bin a op l r) && vtAll S l && vtAll S r
+
 def results (cpp : Bool) (a b : Expr) : String :=
   tf (isSame cpp .cond a .cond b) ++ tf (isOpp cpp false .cond a .cond b) ++ tf (isOpp cpp true .cond a .cond b) ++
   tf (isOppExpr cpp .cond a .cond b)
@@ -151,16 +158,18 @@ def step (line : String) : String :=
       let res := match trees with
         | [a, b] => results cpp a b ++ " " ++ results cpp b a
         | _ => "---- ----"
-      res ++ " # " ++ findingsStr (findings trees) ++ " # " ++ String.join (trees.map fun t => tf (annOK S t))
+      res ++ " # " ++ findingsStr (findings trees) ++ " # " ++
+        " ".intercalate (trees.map fun t => tf (annOK S t) ++ tf (eqNeSafe t) ++ tf (cmpSafe S t) ++ tf (vtAll S t))
     | _, _, _ => "bad-op"
-  | "eval" :: vars :: lits :: env :: "|" :: rest =>
-    match parseVars vars, parseLits lits, parseEnv env, parseWhole rest with
-    | some vars, some lits, some env, some e =>
+  | "eval" :: vars :: lits :: envs :: "|" :: rest =>
+    match parseVars vars, parseLits lits, (envs.splitOn ";").mapM parseEnv, parseWhole rest with
+    | some vars, some lits, some envs, some e =>
       let S := mkSem vars lits
-      let ρ : Env := fun x => match env.find? (·.1 == x) with | some p => p.2 | none => 0
-      match eval S ρ e with
-      | some v => "v:" ++ toString v
-      | none => "ub"
+      ",".intercalate (envs.map fun env =>
+        let ρ : Env := fun x => match env.find? (·.1 == x) with | some p => p.2 | none => 0
+        match eval S ρ e with
+        | some v => "v:" ++ toString v
+        | none => "ub")
     | _, _, _, _ => "bad-op"
   | _ => "bad-op"
 
